@@ -46,9 +46,10 @@ def assert_pristine():
     """No apischema cache may have been filled by importing the pools."""
     from apischema import cache as c
 
-    for f in c._cached:
-        if f.cache_info().currsize:
-            raise RuntimeError("zygote not pristine: %s has entries" % f.__wrapped__.__name__)
+    for f in getattr(c, "_cached", ()):
+        info = getattr(f, "cache_info", None)  # a tree may implement its caches differently
+        if info is not None and info().currsize:
+            raise RuntimeError("zygote not pristine: %s has entries" % getattr(f, "__name__", f))
 
 
 # ---------------------------------------------------------------------- plans
